@@ -2,7 +2,9 @@
 (* Trace validation for NfcDep: a recorded conversation of a real nfc.dep.Initiator
    with a real nfc.dep.Target over the simulated air (sim/air.py).  Events:
 
-     Activate(const, ipni)   (the same two objects are activated again)
+     Activate(const, ipni)   (the same two objects are activated again, with the parameters of the new session;
+                              const = what the objects hold after activate(), read from the objects, and const.e =
+                              what this activation established, from the options and the ATR/PSL frames on the air)
      ICall(id, n, D)  TRet(n, sig)  TCall(id, n)  IRet(n, sig)  IErr(kind)  TEnd(kind)  Release(kind)
      Frame(dir, t, pni, mi, did, nad, len, sig, size, fate, heard, post)     fate: deliver | lose | corrupt | t0..t3
                                                                               (truncated to 0..3 octets)
@@ -20,7 +22,8 @@ VARIABLES tid, l, soft
 tvars == <<cf, i, t, slot, pendI, pendT, nI, nT, viol, faults, stepFaults, sess, last, now, tid, l, soft>>
 
 \* constants of the trace configuration (the per-trace configuration comes from the trace itself)
-TVs == SUBSET {"ack", "atn", "did0", "ipni0", "tpni0"}
+\* (what the objects hold after activation comes from the trace: "freshI" / "freshT" always)
+TVs == {s \cup {"freshI", "freshT"} : s \in SUBSET {"ack", "atn", "did0", "ipni0", "tpni0"}}
 TNone == {}
 
 Traces == ndJsonDeserialize(IOEnv.TRACE_FILE)
@@ -33,8 +36,11 @@ Sig(d, id, off, len) ==
     FoldLeft(LAMBDA acc, k : (acc * 31 + Byte(d, id, off + k - 1) + 1) % 65521, len % 65521, [k \in 1..len |-> k])
 Src(fr) == IF fr.dir = "IT" THEN "I" ELSE "T"
 
+AttrsOf(k) == [lrI |-> k.lrI, lrT |-> k.lrT, did |-> k.did, tdid |-> k.tdid, did0 |-> k.did0, nad |-> k.nad, sb |-> k.sb,
+               R |-> k.R, tR |-> k.tR, gbI |-> k.gbI, gbT |-> k.gbT]
 CfOf(k) == [lrI |-> k.lrI, lrT |-> k.lrT, did |-> k.did, tdid |-> k.tdid, did0 |-> k.did0, nad |-> k.nad, sb |-> k.sb,
-            miuI |-> k.miuI, miuT |-> k.miuT, R |-> k.R]
+            miuI |-> k.miuI, miuT |-> k.miuT, R |-> k.R, tR |-> k.tR, gbI |-> k.gbI, gbT |-> k.gbT,
+            e |-> AttrsOf(k.e), prev |-> NoPrev]
 
 TInit ==
     /\ tid \in 1..Len(Traces)
@@ -45,9 +51,10 @@ TInit ==
 \* the MIUs the two objects hold follow from what the receivers announced (invariant MiuOk); the
 \* conversation is validated with the MIUs the objects really hold, so that a wrong MIU shows up as
 \* frames that do not fit (FrameFits) exactly at the payload sizes k*miu
-ConstOk == cf.miuI > 0 /\ cf.miuT > 0 /\ cf.R > 0 /\ (cf.did0 => cf.did /\ ~cf.tdid) /\ (cf.tdid => cf.did)
-MiuOkP(c0) == /\ c0.miuI = c0.lrT - 3 - B(c0.did) - B(c0.nad)
-              /\ c0.miuT = c0.lrI - 3 - B(c0.tdid)
+\* (the MIUs follow from what THIS activation established, not from what an object may still hold of an earlier session)
+ConstOk == cf.miuI > 0 /\ cf.miuT > 0 /\ cf.R > 0 /\ (cf.e.did0 => cf.e.did /\ ~cf.e.tdid) /\ (cf.e.tdid => cf.e.did)
+MiuOkP(c0) == /\ c0.miuI = c0.lrT - 3 - B(c0.e.did) - B(c0.e.nad)
+              /\ c0.miuT = c0.lrI - 3 - B(c0.e.tdid)
 
 Ev == T[l]
 IsEv(a) == l <= Len(T) /\ Ev.a = a /\ l' = l + 1 /\ UNCHANGED tid
@@ -95,8 +102,9 @@ Proj == [ipni |-> i'.pni, tpni |-> IF t'.ph = "first" /\ sess' > 1 THEN Ev.post.
          now |-> IF i'.st \in {"rel", "end"} THEN Ev.post.now ELSE now']
 PostOk == Ev.a = "Frame" => Proj = Ev.post
 
-InvNames == <<"FirstPni", "MiuOk", "ExactlyOnce", "Intact", "OnlyCommErr", "FrameFits", "OneFaultOk", "TargetOk", "PniInSync">>
-InvP(n) == CASE n = "FirstPni" -> FirstPniP(t', slot', last')
+InvNames == <<"SessAttr", "FirstPni", "MiuOk", "ExactlyOnce", "Intact", "OnlyCommErr", "FrameFits", "OneFaultOk", "TargetOk", "PniInSync">>
+InvP(n) == CASE n = "SessAttr" -> SessAttrP(cf')
+             [] n = "FirstPni" -> FirstPniP(t', slot', last')
              [] n = "MiuOk" -> MiuOkP(cf')
              [] n = "ExactlyOnce" -> ExactlyOnceP(viol', pendI', pendT')
              [] n = "Intact" -> IntactP(i', t', pendI', pendT')
@@ -108,9 +116,11 @@ InvP(n) == CASE n = "FirstPni" -> FirstPniP(t', slot', last')
 AllInv == \A k \in DOMAIN InvNames : InvP(InvNames[k])
 
 Conform == Guarded /\ ResOk /\ PostOk
-Detail(n) == IF n = "FirstPni" THEN [pni |-> slot'.pni, last |-> last', sess |-> sess']
-             ELSE IF n = "MiuOk" THEN [miuI |-> cf.miuI, expI |-> cf.lrT - 3 - B(cf.did) - B(cf.nad),
-                                   miuT |-> cf.miuT, expT |-> cf.lrI - 3 - B(cf.tdid)]
+Detail(n) == IF n = "SessAttr" THEN [bad |-> SessAttrBad(cf'), sess |-> sess', prev |-> cf'.prev,
+                                     held |-> AttrsOf(cf'), est |-> cf'.e]
+             ELSE IF n = "FirstPni" THEN [pni |-> slot'.pni, last |-> last', sess |-> sess']
+             ELSE IF n = "MiuOk" THEN [miuI |-> cf'.miuI, expI |-> cf'.lrT - 3 - B(cf'.e.did) - B(cf'.e.nad),
+                                   miuT |-> cf'.miuT, expT |-> cf'.lrI - 3 - B(cf'.e.tdid)]
              ELSE IF n = "FrameFits" THEN [dir |-> slot'.dir, t |-> slot'.t, did |-> slot'.did, size |-> Size(slot')]
              ELSE IF n = "OneFaultOk" THEN [mode |-> i'.mode, ph |-> i'.ph, err |-> i'.err, stepFaults |-> stepFaults']
              ELSE [st |-> <<i'.st, t'.st>>]
